@@ -100,6 +100,15 @@ func main() {
 	emptyRecipe := &spg.CharRecipe{Length: 5, Allow: spg.Digits, ExcludeChars: "0123456789"}
 	emptySepRecipe := spg.NewWLRecipe(3, wl)
 	emptySepRecipe.SeparatorFunc = spg.NewSFFunction(*emptyRecipe)
+	// shared recipes that the pre-flight REFUSES (a single character cannot hold a digit and an
+	// upper-case letter; two characters rarely hold a digit and a symbol): the refusal path, too,
+	// is taken by several goroutines at once — directly and through a separator built from one
+	refused := []*spg.CharRecipe{
+		{Length: 1, Allow: spg.Lowers, Require: spg.Digits | spg.Uppers},
+		{Length: 2, Allow: spg.All, Require: spg.Digits | spg.Symbols},
+	}
+	refusedSepRecipe := spg.NewWLRecipe(3, wl)
+	refusedSepRecipe.SeparatorFunc = spg.NewSFFunction(*refused[1])
 	// reference values computed before any concurrency, on deep copies
 	alpha := make([]string, len(charRecipes))
 	ent := make([]float32, len(charRecipes))
@@ -146,6 +155,7 @@ func main() {
 			_ = emptyRecipe.SuccessProbability()
 			_, _ = emptySepRecipe.Generate()
 			_ = emptySepRecipe.Entropy()
+			refusals(refused, refusedSepRecipe)
 			for i, r := range charRecipes {
 				if a := r.Alphabet(); a != alpha[i] {
 					fail("sweep: char recipe %d: Alphabet() %q vs %q", i, a, alpha[i])
@@ -172,6 +182,10 @@ func main() {
 			defer func() { atomic.AddInt64(&calls, local) }()
 			for time.Now().Before(deadline) {
 				local++
+				if lg.intn(64) == 1 {
+					refusals(refused, refusedSepRecipe)
+					continue
+				}
 				if lg.intn(64) == 0 {
 					// the impossible recipe: an error, never a password; the separator built from it is empty
 					if p, err := emptyRecipe.Generate(); err == nil || p != nil {
@@ -341,5 +355,32 @@ func firstUse(g *rng, rounds int) {
 		close(start)
 		wg.Wait()
 		calls += 12 * 3 * 5
+	}
+}
+
+// refusals: every refused recipe returns an error and no password; the error a caller is holding
+// keeps its text while other refusals happen; a wordlist recipe whose separator recipe is refused
+// still generates (without separators).
+func refusals(refused []*spg.CharRecipe, wr *spg.WLRecipe) {
+	var errs []error
+	var texts []string
+	for i, r := range refused {
+		p, err := r.Generate()
+		if err == nil || p != nil {
+			fail("refused recipe %d returned a password", i)
+			continue
+		}
+		errs = append(errs, err)
+		texts = append(texts, err.Error())
+		_ = r.SuccessProbability()
+	}
+	if p, err := wr.Generate(); err != nil || len(p.Tokens().Atoms()) != wr.Length {
+		fail("wordlist recipe with a refused separator recipe: %v", err)
+	}
+	_ = wr.Entropy()
+	for i, e := range errs {
+		if e.Error() != texts[i] {
+			fail("the error of refusal %d changed its text from %q to %q", i, texts[i], e.Error())
+		}
 	}
 }
